@@ -1,8 +1,9 @@
 #!/bin/bash
 # dev helper: every archived seeded change against the quick check of its own property (4 at a time, scratch copies);
+# optional argument: a grep pattern selecting seeded directories (e.g. -r5-)
 # prints one line per change: <dir> <pid> rc=<n> deductive|bounded|missed
 cd /verif
-ls seeded | while read d; do
+ls seeded | grep -e "${1:-.}" | while read d; do
   pid=$(python3 -c "import json,sys;print(json.load(open('seeded/$d/meta.json')).get('property',''))")
   case "$pid" in C[0-9][0-9]) echo "$d $pid";; esac
 done > build/matrix_jobs.txt
